@@ -24,6 +24,7 @@ FUNCTIONS = [
     "Converter._index", "Converter._merge",
     "reconciliation:_get_curie_preferred_or_synonym", "reconciliation:_get_uri_preferred_or_synonym",
     "reconciliation:rewire", "reconciliation:remap_uri_prefixes",
+    "_get_prefix_map", "_get_reverse_prefix_map", "_get_prefix_synmap",
 ]
 SHORT = [q.rpartition(":")[2].rpartition(".")[2] for q in FUNCTIONS]
 MODULE = {s_: (q.partition(":")[0] if ":" in q else "api") for q, s_ in zip(FUNCTIONS, SHORT)}
